@@ -28,6 +28,7 @@ def run(ctx):
     ctx.each(r20e, ctx, repo)
     ctx.each(r20f, ctx, repo)
     ctx.each(r20g, ctx, repo)
+    ctx.each(r20i, ctx, repo)
     ctx.each(flowalg.accumulator_rule, ctx, repo, "R20h", [("model", "Population.popsize")], 2, "the population size used as aggregation weight")
 
 
@@ -466,3 +467,59 @@ def r20g(ctx, repo):
                     elsewhere.append("%s:%d %s %s" % (f.module.relpath, c.lineno, "ok" if ok else "NOT OK", why))
     ctx.extra["masked_divisions_elsewhere"] = elsewhere
     ctx.require(n >= 1, "R20g: no masked division found in the reporting modules")
+
+
+def _first_or_add(fi, key_pred=None):
+    """
+    `if <first>: D[k] = v(.copy()) else: D[k] += v`  ->  list of (if stmt, set stmt, add stmt, kind of <first> test)
+    """
+    out = []
+    for s_ in own_nodes(fi.node):
+        if isinstance(s_, ast.If) and len(s_.body) == 1 and len(s_.orelse) == 1 and isinstance(s_.body[0], ast.Assign) and isinstance(s_.orelse[0], ast.AugAssign):
+            a, b = s_.body[0], s_.orelse[0]
+            if ast.unparse(a.targets[0]) == ast.unparse(b.target):
+                out.append((s_, a, b))
+    return out
+
+
+def r20i(ctx, repo):
+    from ..core import boolx as B
+
+    ctx.rule("R20i", "cascade values: get_cascade_data sums the databook entries of each constituent over the requested populations and the constituents of each stage (first term assigned, later terms added with +=, the same expression in both branches, year matched with ==); validate_cascade rejects a cascade unless every stage's compartments are a subset of the previous stage's (consecutive stages i, i+1 over the whole range), raising InvalidCascade")
+    fi = repo.func("cascade", "get_cascade_data")
+    foa = _first_or_add(fi)
+    ctx.require(len(foa) >= 2, "R20i: the two first-or-add accumulations of get_cascade_data were not found (%d)" % len(foa))
+    for st, a, b in foa:
+        v0 = ast.unparse(a.value)
+        v1 = ast.unparse(b.value)
+        same = v0 in (v1, v1 + ".copy()", "np.copy(%s)" % v1, "np.array(%s)" % v1)
+        first = ast.unparse(st.test)
+        tgt = a.targets[0]
+        ok_first = False
+        if isinstance(st.test, ast.Compare) and isinstance(st.test.ops[0], ast.NotIn) and isinstance(tgt, ast.Subscript):
+            ok_first = ast.unparse(st.test.left) == ast.unparse(tgt.slice) and ast.unparse(st.test.comparators[0]) == ast.unparse(tgt.value)
+        elif isinstance(st.test, ast.Compare) and isinstance(st.test.ops[0], ast.Eq) and ast.unparse(st.test.comparators[0]) == "0":
+            lp = [l for l in K.enclosing_loops(st) if "enumerate(" in ast.unparse(l.iter) and isinstance(l.target, ast.Tuple) and ast.unparse(l.target.elts[0]) == ast.unparse(st.test.left)]
+            ok_first = bool(lp)
+        ctx.check(same and ok_first and isinstance(b.op, ast.Add), "R20i", fi, st, "`%s`: first term assigned, later terms added" % norm(b)[:50], "`if %s: %s else: %s` is not a sum of the same terms (first assigned under a first-occurrence test, later ones added with +=): the cascade value taken from data is not the sum of the databook entries of the stage's constituents" % (first, norm(a)[:50], norm(b)[:50]))
+    ym = [c for c in own_nodes(fi.node) if isinstance(c, ast.Call) and ast.unparse(c.func) == "np.where" and c.args and isinstance(c.args[0], ast.Compare)]
+    ok = len(ym) == 1 and isinstance(ym[0].args[0].ops[0], ast.Eq) and sorted([ast.unparse(ym[0].args[0].left), ast.unparse(ym[0].args[0].comparators[0])]) == ["t", "tval"]
+    ctx.check(ok, "R20i", fi, enclosing_stmt(ym[0]) if ym else fi.node, "databook years matched exactly", "the databook value of a year is not placed at the position where the requested year equals it", stmt_text="year-match")
+    put = [s_ for s_ in own_nodes(fi.node) if isinstance(s_, ast.Assign) and ast.unparse(s_.targets[0]) == "vals[match[0]]"]
+    ok = len(put) == 1 and ast.unparse(put[0].value) == "ts.vals[i]" and any(pol and ast.unparse(t) == "len(match)" for t, pol in guards_of(put[0]))
+    ctx.check(ok, "R20i", fi, put[0] if put else fi.node, "vals[position of the year] = the entry of that year", "the databook entry of year i is not stored at the matching position (`vals[match[0]] = ts.vals[i]` under `if len(match)`)", stmt_text="year-store")
+    vc = repo.func("cascade", "validate_cascade")
+    raises = [r for r in own_nodes(vc.node) if isinstance(r, ast.Raise) and "InvalidCascade" in ast.unparse(r.exc or ast.Constant(value=""))]
+    nest = [r for r in raises if any(isinstance(l, ast.For) for l in K.enclosing_loops(r))]
+    ok = len(nest) == 1
+    if ok:
+        lp = K.enclosing_loops(nest[0])[0]
+        i = lp.target.id if isinstance(lp.target, ast.Name) else None
+        ok = i is not None and ast.unparse(lp.iter) in ("range(0, len(expanded) - 1)", "range(len(expanded) - 1)")
+        g = [(t, pol) for t, pol in guards_of(nest[0], stop=lp)]
+        want = B.parse_cond("not (set(expanded[%s + 1]) <= set(expanded[%s]))" % (i, i))
+        ok = ok and len(g) == 1 and B.equivalent(B.cond(g), want)
+    ctx.check(ok, "R20i", vc, nest[0] if nest else vc.node, "un-nested consecutive stages are refused with InvalidCascade", "validate_cascade does not raise InvalidCascade exactly when `not (set(expanded[i + 1]) <= set(expanded[i]))` for i over range(0, len(expanded) - 1): a cascade whose later stage is not contained in the earlier one is accepted, and its stage values can increase along the cascade", stmt_text="nesting-test")
+    ex = [s_ for s_ in own_nodes(vc.node) if isinstance(s_, ast.Assign) and ast.unparse(s_.targets[0]) == "expanded[stage]"]
+    ok = len(ex) == 1 and ast.unparse(ex[0].value) == "framework.get_charac_includes(includes)"
+    ctx.check(ok, "R20i", vc, ex[0] if ex else vc.node, "stages expanded to their compartments before comparison", "stages are not expanded to their member compartments (framework.get_charac_includes) before the nesting comparison", stmt_text="expansion")
